@@ -7,11 +7,18 @@
   needs: node ids in the chain are distinct, every index entry points at a linked, live node carrying that
   key, no linked node is freed. Theorems: `WInv` holds after every operation aborted at every site,
   *starting from any `WInv` state* (so also for the operations that follow an earlier panic), and dropping
-  the cache frees no node twice. What is modelled rather than verified: unwinding itself and the behaviour of
-  `HashMap` under a panicking `Hash`/`Eq` (lookup/remove leave the map unchanged; a failed insert leaves the
-  new entry absent). K/V double drops and the composite caches are covered by the fault-injection runs.
+  the cache frees no node twice. Second half (section `Own`, model `Model/AbortOwn.lean`): which keys and values the
+  unwinding frames drop, hand back or leak at each site; per object `linked-after + dropped + returned + leaked =
+  linked-before + passed-in` for every operation aborted anywhere, lifted to whole histories followed by the drop of
+  the cache: no object is dropped twice (`no_double_drop`), no dropped object stays reachable (`dropped_not_reachable`).
+  What is modelled rather than verified: unwinding itself (which locals a frame still owns at each call into user
+  code, that a return value already in the return place is leaked when a parameter's destructor unwinds) and the
+  behaviour of `HashMap` under a panicking `Hash`/`Eq` (lookup/remove leave the map unchanged; a failed insert leaves
+  the new entry absent) — both are compared with the real code on every run (`abortcheck`: post-panic state and drop
+  log of every injection into a plain LRU). The composite caches are covered by the fault-injection runs.
 -/
 import Caches.Lemmas.Abort
+import Caches.Lemmas.AbortOwn
 set_option linter.unusedSectionVars false
 set_option linter.unusedVariables false
 namespace C18
@@ -163,4 +170,331 @@ example : WInv ({ chain := [⟨7, 1, 10⟩, ⟨3, 2, 20⟩], index := [(2, 3)], 
   simp at hm
   obtain ⟨rfl, rfl⟩ := hm
   exact ⟨⟨3, 2, 20⟩, by simp, rfl, rfl⟩
+
+/-! ### ownership of keys and values under abort: every object is owned exactly once
+
+  `payload` = objects owned by linked nodes; `Fx` = what the (possibly aborted) call dropped, handed to the caller, or
+  leaked (owned by nobody, never dropped). Per object: after + dropped + returned + leaked = before + passed in. -/
+section Own
+variable [DecidableEq ν]
+
+def cnt (f : Fx κ ν) (o : Obj κ ν) : Nat := f.dropped.count o + f.returned.count o + f.leaked.count o
+
+/-- `put` aborted at any site (or completing): the two arguments and the displaced pair are each accounted for once -/
+theorem put_accounts (w : W κ ν) (k : κ) (v : ν) (fresh : Nat) (s : PutFx) (h : WInv w) (o : Obj κ ν) :
+    (payload (put w k v fresh s.site).chain).count o + cnt (putFx w k v s) o =
+      (payload w.chain).count o + ([Obj.key k, Obj.val v] : List (Obj κ ν)).count o := by
+  refine (?_ : _ ∧ True).1
+  unfold put putFx cnt
+  by_cases h1 : s = .lookup
+  · subst h1; simp [PutFx.site]
+  · have h1' : s.site ≠ .lookup := by cases s <;> simp_all [PutFx.site]
+    simp only [h1, h1', if_false]
+    cases hl : lookup k w.index with
+    | some i =>
+      obtain ⟨n, hn, -, -⟩ := nodeOf_of_lookup w h k i hl
+      simp only [hn]
+      have hu := payload_unlink i w.chain n h.ids_nd hn o
+      have hv := count_objs_val n v o
+      split <;> simp only [payload_cons, List.count_append, List.count_cons, List.count_nil, objs] at * <;>
+        refine ⟨by omega, by first | rfl | trivial⟩
+    | none =>
+      simp only
+      by_cases h0 : w.cap = 0
+      · simp [h0]
+      · simp only [h0, if_false]
+        by_cases hfull : w.index.length = w.cap
+        · simp only [hfull, if_true]
+          cases hlast : w.chain.getLast? with
+          | none => simp
+          | some old =>
+            simp only
+            by_cases h2 : s = .removeOld
+            · subst h2; simp [PutFx.site]
+            · have h2' : s.site ≠ .removeOld := by cases s <;> simp_all [PutFx.site]
+              simp only [h2, h2', if_false]
+              cases hlo : lookup old.key w.index with
+              | none => simp
+              | some i =>
+                obtain ⟨n, hn, -, -⟩ := nodeOf_of_lookup w h old.key i hlo
+                simp only [hn]
+                have hu := payload_unlink i w.chain n h.ids_nd hn o
+                cases s <;> simp only [PutFx.site, reduceCtorEq, if_false, if_true, or_false, or_true,
+                    payload_cons, List.count_append, List.count_cons, List.count_nil, objs] at * <;>
+                  refine ⟨by omega, by first | rfl | trivial⟩
+        · simp only [hfull, if_false]
+          cases s <;> simp [PutFx.site, payload_cons, objs, List.count_cons] <;> omega
+
+/-- `remove`: after a panicking callback the key is leaked (it sits in a `MaybeUninit` nobody drops), never dropped twice -/
+theorem remove_accounts (w : W κ ν) (k : κ) (s : RmFx) (h : WInv w) (o : Obj κ ν) :
+    (payload (remove w k s.site).chain).count o + cnt (removeFx w k s) o = (payload w.chain).count o := by
+  unfold remove removeFx cnt
+  by_cases h1 : s = .lookup
+  · subst h1; simp [RmFx.site]
+  · have h1' : s.site ≠ .lookup := by cases s <;> simp_all [RmFx.site]
+    simp only [h1, h1', if_false]
+    cases hl : lookup k w.index with
+    | none => simp
+    | some i =>
+      obtain ⟨n, hn, -, -⟩ := nodeOf_of_lookup w h k i hl
+      simp only [hn]
+      have hu := payload_unlink i w.chain n h.ids_nd hn o
+      cases s <;> simp only [objs, List.count_cons, List.count_nil] at * <;> omega
+
+theorem removeLru_accounts (w : W κ ν) (s : RmFx) (h : WInv w) (o : Obj κ ν) :
+    (payload (removeLru w s.site).chain).count o + cnt (removeLruFx w s) o = (payload w.chain).count o ∧
+      (removeLruFx w s).leaked = [] := by
+  unfold removeLru removeLruFx cnt
+  cases hlast : w.chain.getLast? with
+  | none => simp
+  | some old =>
+    simp only
+    by_cases h1 : s = .lookup
+    · subst h1; simp [RmFx.site]
+    · have h1' : s.site ≠ .lookup := by cases s <;> simp_all [RmFx.site]
+      simp only [h1, h1', if_false]
+      cases hl : lookup old.key w.index with
+      | none => simp
+      | some i =>
+        obtain ⟨n, hn, -, -⟩ := nodeOf_of_lookup w h old.key i hl
+        simp only [hn]
+        have hu := payload_unlink i w.chain n h.ids_nd hn o
+        cases s <;> simp only [reduceCtorEq, if_false, if_true, objs, List.count_cons, List.count_nil] at * <;>
+          refine ⟨by omega, by first | rfl | trivial⟩
+
+/-- `j` complete loop iterations release exactly the pairs they unlink -/
+theorem removeLruN_accounts (w : W κ ν) (j : Nat) (h : WInv w) (o : Obj κ ν) :
+    (payload (removeLruN w j).chain).count o + (removeLruNDrops w j).count o = (payload w.chain).count o := by
+  induction j generalizing w with
+  | zero => simp [removeLruN, removeLruNDrops]
+  | succ j ih =>
+    have h1 := (removeLru_accounts w .done h o).1
+    have hfx : cnt (removeLruFx w .done) o = (removeLruFx w .done).returned.count o := by
+      have hd : (removeLruFx w .done).dropped = [] := by
+        unfold removeLruFx
+        cases w.chain.getLast? with
+        | none => rfl
+        | some old =>
+          simp only [reduceCtorEq, if_false, if_true]
+          cases lookup old.key w.index with
+          | none => rfl
+          | some i =>
+            simp only
+            cases nodeOf i w.chain <;> rfl
+      have hl := (removeLru_accounts w .done h o).2
+      simp [cnt, hd, hl]
+    have h2 := ih (removeLru w .done) (removeLru_winv w .done h)
+    simp only [RmFx.site] at h1
+    simp only [removeLruN, removeLruNDrops, List.count_append]
+    omega
+
+/-- `purge` aborted in any iteration at any site -/
+theorem purge_accounts (w : W κ ν) (j : Nat) (s : RmFx) (h : WInv w) (o : Obj κ ν) :
+    (payload (purge w j s.site).chain).count o + cnt (purgeFx w j s) o = (payload w.chain).count o := by
+  have h1 := removeLruN_accounts w j h o
+  have h2 := removeLru_accounts (removeLruN w j) s (removeLruN_winv w j h) o
+  unfold purge purgeFx
+  simp only [cnt, List.count_append, List.count_nil, h2.2] at *
+  omega
+
+/-- `resize` aborted in any iteration at any site, in the re-hash, or completed -/
+theorem resize_accounts (w : W κ ν) (n j : Nat) (s : RmFx) (fin : Bool) (h : WInv w) (o : Obj κ ν) :
+    (payload (resize w n j s.site fin).chain).count o + cnt (resizeFx w n j s fin) o = (payload w.chain).count o := by
+  unfold resize resizeFx
+  split
+  · simp [cnt]
+  · simp only
+    split
+    · have := removeLruN_accounts w (w.index.length - n) h o
+      simp only [cnt, List.count_nil]; omega
+    · split
+      · have h1 := removeLruN_accounts w j h o
+        have h2 := removeLru_accounts (removeLruN w j) s (removeLruN_winv w j h) o
+        simp only [cnt, List.count_append, List.count_nil, h2.2] at *
+        omega
+      · have := removeLruN_accounts w (w.index.length - n) h o
+        simp only [cnt, List.count_nil]; omega
+
+/-- `get` moves a node, no object changes hands -/
+theorem get_accounts (w : W κ ν) (k : κ) (site : RemoveSite) (h : WInv w) (o : Obj κ ν) :
+    (payload (Abort.get w k site).chain).count o = (payload w.chain).count o := by
+  unfold Abort.get
+  split
+  · rfl
+  · cases hl : lookup k w.index with
+    | none => rfl
+    | some i =>
+      obtain ⟨n, hn, -, -⟩ := nodeOf_of_lookup w h k i hl
+      simp only [hn]
+      have hu := payload_unlink i w.chain n h.ids_nd hn o
+      simp only [payload_cons, List.count_append]; omega
+
+/-- `Drop for RawLRU` (also when a key's or value's `Drop` panics part-way): it drops objects of distinct linked nodes
+    only, so nothing that is not owned by the list, and nothing twice; the rest leaks -/
+theorem drop_accounts (w : W κ ν) (p : Nat) (panicIn : Option Bool) (h : WInv w) (o : Obj κ ν) :
+    (dropFx w p panicIn).count o ≤ (payload w.chain).count o := by
+  have hnd : ((w.index.take (p + 1)).map (·.2)).Nodup :=
+    List.Sublist.nodup (List.Sublist.map _ (List.take_sublist _ _)) h.idx_ids_nd
+  have hsel := payload_select w.chain h.ids_nd _ hnd o
+  rw [List.filterMap_map, List.take_add_one, List.filterMap_append] at hsel
+  have happ : ∀ a b : List (Node κ ν), payload (a ++ b) = payload a ++ payload b := by
+    intro a b; simp [payload]
+  rw [happ, List.count_append] at hsel
+  unfold dropFx
+  simp only [List.count_append, List.head?_drop]
+  refine Nat.le_trans (Nat.add_le_add_left ?_ _) hsel
+  cases he : w.index[p]? with
+  | none => cases panicIn <;> simp
+  | some e =>
+    cases panicIn with
+    | none => simp
+    | some inKey =>
+      simp only [Option.toList_some, List.filterMap_cons, List.filterMap_nil, Function.comp]
+      cases hn : nodeOf e.2 w.chain with
+      | none => simp
+      | some n =>
+        simp only [payload_cons, payload_nil, List.append_nil]
+        cases inKey <;> simp only [objs, Bool.false_eq_true, if_false, if_true, List.count_cons, List.count_nil] <;> omega
+
+/-! #### whole histories: any sequence of calls, each aborted at any site or completing, then the drop of the cache -/
+
+/-- one call of a history together with the site at which it is aborted (`done` = it completes) -/
+inductive Call (κ ν : Type)
+  | put (k : κ) (v : ν) (fresh : Nat) (s : PutFx)
+  | remove (k : κ) (s : RmFx)
+  | removeLru (s : RmFx)
+  | purge (j : Nat) (s : RmFx)
+  | resize (n j : Nat) (s : RmFx) (fin : Bool)
+  | get (k : κ) (site : RemoveSite)
+
+def Call.next (w : W κ ν) : Call κ ν → W κ ν
+  | .put k v fresh s => Abort.put w k v fresh s.site
+  | .remove k s => Abort.remove w k s.site
+  | .removeLru s => Abort.removeLru w s.site
+  | .purge j s => Abort.purge w j s.site
+  | .resize n j s fin => Abort.resize w n j s.site fin
+  | .get k site => Abort.get w k site
+
+def Call.fx (w : W κ ν) : Call κ ν → Fx κ ν
+  | .put k v _ s => putFx w k v s
+  | .remove k s => removeFx w k s
+  | .removeLru s => removeLruFx w s
+  | .purge j s => purgeFx w j s
+  | .resize n j s fin => resizeFx w n j s fin
+  | .get _ _ => {}
+
+/-- the objects the caller passes in -/
+def Call.inputs : Call κ ν → List (Obj κ ν)
+  | .put k v _ _ => [Obj.key k, Obj.val v]
+  | _ => []
+
+/-- the allocator hands out an address that is not the address of a linked node -/
+def Call.ok (w : W κ ν) : Call κ ν → Prop
+  | .put _ _ fresh _ => fresh ∉ ids w.chain
+  | _ => True
+
+def Valid (w : W κ ν) : List (Call κ ν) → Prop
+  | [] => True
+  | c :: cs => c.ok w ∧ Valid (c.next w) cs
+
+def final (w : W κ ν) : List (Call κ ν) → W κ ν
+  | [] => w
+  | c :: cs => final (c.next w) cs
+
+/-- everything the calls of the history dropped (by unwinding or normally) -/
+def droppedBy (w : W κ ν) : List (Call κ ν) → List (Obj κ ν)
+  | [] => []
+  | c :: cs => (c.fx w).dropped ++ droppedBy (c.next w) cs
+/-- everything handed back to the caller or leaked -/
+def releasedBy (w : W κ ν) : List (Call κ ν) → List (Obj κ ν)
+  | [] => []
+  | c :: cs => (c.fx w).returned ++ (c.fx w).leaked ++ releasedBy (c.next w) cs
+def inputsOf : List (Call κ ν) → List (Obj κ ν)
+  | [] => []
+  | c :: cs => c.inputs ++ inputsOf cs
+
+theorem call_winv (w : W κ ν) (c : Call κ ν) (h : WInv w) (hok : c.ok w) : WInv (c.next w) := by
+  cases c with
+  | put k v fresh s => exact put_winv w k v fresh s.site h hok
+  | remove k s => exact remove_winv w k s.site h
+  | removeLru s => exact removeLru_winv w s.site h
+  | purge j s => exact purge_winv w j s.site h
+  | resize n j s fin => exact resize_winv w n j s.site fin h
+  | get k site => exact get_winv w k site h
+
+theorem call_accounts (w : W κ ν) (c : Call κ ν) (h : WInv w) (o : Obj κ ν) :
+    (payload (c.next w).chain).count o + cnt (c.fx w) o = (payload w.chain).count o + c.inputs.count o := by
+  cases c with
+  | put k v fresh s => exact put_accounts w k v fresh s h o
+  | remove k s => simpa [Call.inputs, Call.next, Call.fx] using remove_accounts w k s h o
+  | removeLru s => simpa [Call.inputs, Call.next, Call.fx] using (removeLru_accounts w s h o).1
+  | purge j s => simpa [Call.inputs, Call.next, Call.fx] using purge_accounts w j s h o
+  | resize n j s fin => simpa [Call.inputs, Call.next, Call.fx] using resize_accounts w n j s fin h o
+  | get k site => simpa [Call.inputs, Call.next, Call.fx, cnt] using get_accounts w k site h o
+
+/-- every history of calls, each aborted anywhere: the weak invariant holds at the end and every object that ever
+    entered is in exactly one place — still linked, dropped, or released (handed back / leaked) -/
+theorem history_accounts (w : W κ ν) (cs : List (Call κ ν)) (h : WInv w) (hv : Valid w cs) (o : Obj κ ν) :
+    WInv (final w cs) ∧
+    (payload (final w cs).chain).count o + (droppedBy w cs).count o + (releasedBy w cs).count o =
+      (payload w.chain).count o + (inputsOf cs).count o := by
+  induction cs generalizing w with
+  | nil => simp [final, droppedBy, releasedBy, inputsOf]; exact h
+  | cons c cs ih =>
+    obtain ⟨hok, hv'⟩ := hv
+    have hw := call_winv w c h hok
+    obtain ⟨hf, hc⟩ := ih (c.next w) hw hv'
+    have ha := call_accounts w c h o
+    refine ⟨hf, ?_⟩
+    simp only [final, droppedBy, releasedBy, inputsOf, List.count_append, cnt] at *
+    omega
+
+/-- **No key or value is dropped twice** — over a whole life of the cache: it starts empty, any calls follow, each
+    aborted by a panic at any site or completing; finally the cache is dropped (its `Drop` may be cut short by a
+    panicking destructor as well). If the caller never passes the same object twice (objects are tokens: `Nodup`),
+    then the list of all drops the library performs has no duplicate, and it contains only objects that were passed in. -/
+theorem no_double_drop (cap : Nat) (cs : List (Call κ ν)) (p : Nat) (panicIn : Option Bool)
+    (hv : Valid ({ chain := [], index := [], cap := cap, freed := [] } : W κ ν) cs) (hin : (inputsOf cs).Nodup) :
+    let w0 : W κ ν := { chain := [], index := [], cap := cap, freed := [] }
+    (droppedBy w0 cs ++ dropFx (final w0 cs) p panicIn).Nodup ∧
+      ∀ o ∈ droppedBy w0 cs ++ dropFx (final w0 cs) p panicIn, o ∈ inputsOf cs := by
+  intro w0
+  have h0 : WInv w0 := ⟨by simp [w0, ids], by simp [w0], by simp [w0], by simp [w0], by simp [w0]⟩
+  have key : ∀ o, (droppedBy w0 cs ++ dropFx (final w0 cs) p panicIn).count o ≤ (inputsOf cs).count o := by
+    intro o
+    obtain ⟨hf, hc⟩ := history_accounts w0 cs h0 hv o
+    have hd := drop_accounts (final w0 cs) p panicIn hf o
+    have : (payload w0.chain).count o = 0 := by simp [w0, payload]
+    simp only [List.count_append]
+    omega
+  refine ⟨List.nodup_iff_count.2 fun o => Nat.le_trans (key o) (List.nodup_iff_count.1 hin o), ?_⟩
+  intro o ho
+  have := key o
+  have hpos : 0 < (droppedBy w0 cs ++ dropFx (final w0 cs) p panicIn).count o := List.count_pos_iff.2 ho
+  exact List.count_pos_iff.1 (Nat.lt_of_lt_of_le hpos this)
+
+/-- **No dropped key or value stays reachable**: at every point of such a life, an object the library has already
+    dropped (or handed back, or leaked) is not owned by any linked node — iterators and peeks cannot hand it out -/
+theorem dropped_not_reachable (cap : Nat) (cs : List (Call κ ν))
+    (hv : Valid ({ chain := [], index := [], cap := cap, freed := [] } : W κ ν) cs) (hin : (inputsOf cs).Nodup) :
+    let w0 : W κ ν := { chain := [], index := [], cap := cap, freed := [] }
+    ∀ o ∈ droppedBy w0 cs ++ releasedBy w0 cs, o ∉ payload (final w0 cs).chain := by
+  intro w0 o ho hp
+  have h0 : WInv w0 := ⟨by simp [w0, ids], by simp [w0], by simp [w0], by simp [w0], by simp [w0]⟩
+  obtain ⟨-, hc⟩ := history_accounts w0 cs h0 hv o
+  have h1 : 0 < (droppedBy w0 cs ++ releasedBy w0 cs).count o := List.count_pos_iff.2 ho
+  have h2 : 0 < (payload (final w0 cs).chain).count o := List.count_pos_iff.2 hp
+  have h3 := List.nodup_iff_count.1 hin o
+  have : (payload w0.chain).count o = 0 := by simp [w0, payload]
+  simp only [List.count_append] at h1
+  omega
+
+/-- non-vacuity: a put whose `map.insert` panics (node linked, not indexed), then a completed put that evicts nothing,
+    then a `remove` whose callback panics (key leaked) — a valid history over distinct tokens -/
+example : Valid ({ chain := [], index := [], cap := 2, freed := [] } : W Nat Nat)
+      [.put 1 10 100 .insertNew, .put 2 20 101 .done, .remove 2 .callback] ∧
+    (inputsOf ([.put 1 10 100 .insertNew, .put 2 20 101 .done, .remove 2 .callback] : List (Call Nat Nat))).Nodup := by
+  refine ⟨⟨by simp [Call.ok, ids], by simp [Call.ok, Call.next, Abort.put, PutFx.site, lookup, ids], trivial, trivial⟩, by decide⟩
+end Own
+
 end C18
